@@ -76,6 +76,17 @@ def grid_spec(rng: random.Random, d: int | None = None, min_size: int = 1, max_s
     return spec
 
 
+def derive(rng: random.Random, spec: dict, p: float = 0.25) -> dict:
+    """with probability p mark the grid as *derived* (downsampled / resampled), which leaves a FRACTIONAL internal
+    `_size` (e.g. 9 -> 4.5 with 5 samples): the float-valued size is part of the grid semantics (`size_tensor()` = ceil).
+    Only grids with >= 5 samples per axis are derived, so that >= 3 samples remain."""
+    if min(spec["size"]) >= 5 and rng.random() < p:
+        spec = dict(spec)
+        spec["derive"] = rng.choice(["downsample", "downsample", "resample"])
+        spec["derive_factor"] = round(rng.uniform(1.1, 1.7), 3)
+    return spec
+
+
 def make_grid(spec: dict):
     from deepali.core.grid import Grid
 
@@ -85,7 +96,12 @@ def make_grid(spec: dict):
         kw["origin"] = spec["origin"]
     if "center" in spec:
         kw["center"] = spec["center"]
-    return Grid(**kw)
+    g = Grid(**kw)
+    if spec.get("derive") == "downsample":
+        g = g.downsample(1)
+    elif spec.get("derive") == "resample":
+        g = g.resample(g.spacing() * spec["derive_factor"])
+    return g
 
 
 def grid_nontrivial(spec: dict) -> bool:
